@@ -126,6 +126,48 @@ func registerStatic(e *Engine) {
 		p.hr.noteFunc(fn)
 		return p.foldSSA(args[idx], 0)
 	}
+	in[rtwPkgPath+".KeeperStoreKey"] = func(p *Path, a []Value) Value {
+		module := cStr(a[0], "module")
+		fn := p.eng.findFuncByName(modPath + "/app.NewApp")
+		if fn == nil {
+			panic(engErr("app.NewApp not found (package app not loaded?)"))
+		}
+		want := modPath + "/x/" + module + "/keeper.NewKeeper"
+		for _, b := range fn.Blocks {
+			for _, ins := range b.Instrs {
+				c, ok := ins.(*ssa.Call)
+				if !ok {
+					continue
+				}
+				if sc := c.Call.StaticCallee(); sc == nil || sc.String() != want {
+					continue
+				}
+				// the storeKey argument: MakeInterface/ChangeInterface of a map lookup keys["<name>"]
+				var v ssa.Value = c.Call.Args[0]
+				for i := 0; i < 6; i++ {
+					switch x := v.(type) {
+					case *ssa.MakeInterface:
+						v = x.X
+						continue
+					case *ssa.ChangeInterface:
+						v = x.X
+						continue
+					case *ssa.Extract:
+						v = x.Tuple
+						continue
+					case *ssa.Lookup:
+						if k, ok := x.Index.(*ssa.Const); ok && k.Value != nil && k.Value.Kind() == constant.String {
+							p.hr.noteFunc(fn)
+							return VStr{StrC(constant.StringVal(k.Value))}
+						}
+					}
+					break
+				}
+				panic(engErr("store key argument of %s is not a constant lookup keys[...]", want))
+			}
+		}
+		panic(engErr("no call of %s in app.NewApp", want))
+	}
 	in[rtwPkgPath+".StaticTrace"] = func(p *Path, a []Value) Value {
 		name := cStr(a[0], "function name")
 		fn := p.eng.findFuncByName(name)
